@@ -2,6 +2,7 @@ package verifrt
 
 import (
 	"reflect"
+	"runtime"
 	"unsafe"
 )
 
@@ -399,6 +400,11 @@ func Select(site int, def bool, cs ...Case) int {
 		sts = push(sts, c.st())
 	}
 	g := yield()
+	// The identity of a "visit" for spin detection is the statement plus its callers: tracer.Send
+	// called from three consecutive lines is not a loop, the same line reached again is.
+	spinKey := uint32(0)
+	probation := false
+retry:
 	var readyArr [8]int
 	ready := readyArr[:0]
 	stutter := uint32(0)
@@ -415,7 +421,10 @@ func Select(site int, def bool, cs ...Case) int {
 			if len(s.buf) > 0 || len(s.sendq) > 0 {
 				ready = push(ready, i)
 			} else if s.closed {
-				if g.passiveOnly && g.inSpinSet(site, i) {
+				if spinKey == 0 {
+					spinKey = callerKey(site)
+				}
+				if g.passiveOnly && !probation && g.inSpinSet(spinKey, i) {
 					stutter |= 1 << uint(i)
 				} else {
 					ready = push(ready, i)
@@ -424,12 +433,29 @@ func Select(site int, def bool, cs ...Case) int {
 		}
 	}
 	if len(ready) > 0 {
+		// Fair default: Go's select chooses uniformly among the ready clauses, so a goroutine that
+		// comes back to the same statement (same callers) cannot take the same receive from a
+		// closed channel for ever while another clause is ready. The default alternative rotates
+		// away from the clause taken at the previous visit; every clause stays an alternative.
+		if len(ready) > 1 && g.lastSelKey != 0 {
+			if spinKey == 0 {
+				spinKey = callerKey(site)
+			}
+			if spinKey == g.lastSelKey && ready[0] == g.lastSelCase {
+				first := ready[0]
+				for x := 1; x < len(ready); x++ {
+					ready[x-1] = ready[x]
+				}
+				ready[len(ready)-1] = first
+			}
+		}
 		k := 0
 		if len(ready) > 1 && e.spent < e.opts.Bound {
 			k = e.pick(len(ready), KSelect)
 		}
 		i := ready[k]
 		s := sts[i]
+		g.lastSelKey = 0
 		if cs[i].isSend() {
 			g.active()
 			if !e.trySend(s, g, cs[i].sendVal()) {
@@ -447,7 +473,11 @@ func Select(site int, def bool, cs ...Case) int {
 					g.spinSet = g.spinSet[:0]
 				}
 				g.passiveOnly = true
-				g.spinSet = push(g.spinSet, uint32(site)<<8|uint32(i))
+				if spinKey == 0 {
+					spinKey = callerKey(site)
+				}
+				g.spinSet = push(g.spinSet, spinKey<<4|uint32(i))
+				g.lastSelKey, g.lastSelCase = spinKey, i
 			} else {
 				g.active()
 			}
@@ -460,6 +490,18 @@ func Select(site int, def bool, cs ...Case) int {
 		g.hash = mix2(g.hash, opSelect, 0xDEF)
 		e.touchG(g)
 		return -1
+	}
+	if stutter != 0 && g.spinCount < spinLimit {
+		// Probation: the goroutine may be in a bounded loop (it is let through a limited number of
+		// times) or spinning for ever. It continues at the lowest priority: only when no other
+		// goroutine can run, so its iterations add no interleavings; other clauses that become
+		// ready in the meantime are seen by the re-evaluation.
+		g.spinCount++
+		g.lowPrio = true
+		yield()
+		g.lowPrio = false
+		probation = true
+		goto retry
 	}
 	ss := &selState{}
 	g.hash = mix(g.hash, opSelect+100)
@@ -499,4 +541,24 @@ func Select(site int, def bool, cs ...Case) int {
 	g.hash = mix(g.hash, uint64(i))
 	e.touchG(g)
 	return i
+}
+
+// spinLimit is the number of times a goroutine is let through a select whose only ready clause
+// is a receive from a closed channel that it has already taken, without any active operation in
+// between, before it is declared spinning and treated as blocked.
+const spinLimit = 12
+
+// callerKey identifies a visit of a select statement by the statement and its two callers.
+func callerKey(site int) uint32 {
+	var pcs [3]uintptr
+	n := runtime.Callers(3, pcs[:])
+	h := H(site + 1)
+	for i := 0; i < n; i++ {
+		h = mix(h, uint64(pcs[i]))
+	}
+	k := uint32(h>>8) & 0x0fffffff
+	if k == 0 {
+		k = 1
+	}
+	return k
 }
